@@ -115,7 +115,7 @@ func c23(x *ctx) {
 			case "in-method":
 				// a top-level local is not visible inside the method: rebuild the receiver there
 				expr := recv
-				if e, ok := map[string]string{"ua": "Animal.new", "up": "Puppy.new", "uh": "Holder.new", "uk": "Nsp::Kid.new", "ui": "Nsp::Inc.new", "uv": "Visq.new", "uw": "Visr.new"}[recv]; ok {
+				if e, ok := map[string]string{"ua": "Animal.new", "up": "Puppy.new", "uh": "Holder.new", "uk": "Nsp::Kid.new", "ui": "Nsp::Inc.new", "uv": "Visq.new", "uw": "Visr.new", "uq": "Itemq.new", "ur": "Itemr.new", "ux": "Itemk.new"}[recv]; ok {
 					expr = e
 				} else if recv == "rv" {
 					continue
@@ -166,6 +166,12 @@ func c23(x *ctx) {
 	mk(visDefs+"uv = Visq.new\n", "uv", union(map[string]bool{"bark": true}, objKernel), union(map[string]bool{"bark": true}, objKernel), map[string]bool{"hid_one": true, "after_block": true, "hid_c": true, "build": true}, "user-instance:Visq")
 	mk(visDefs, "Visq", map[string]bool{"build": true, "new": true}, union(map[string]bool{"build": true, "new": true}, objKernel), map[string]bool{"hid_c": true, "bark": true, "after_block": true, "hid_one": true}, "user-class:Visq")
 	mk(visDefs+"uw = Visr.new\n", "uw", union(map[string]bool{"open_after": true}, objKernel), union(map[string]bool{"open_after": true}, objKernel), map[string]bool{"hid_d": true}, "user-instance:Visr")
+	// the same module both extended and included (in both orders), and a subclass of such a class
+	mixDefs := "module Tagq\n  def label\n    1\n  end\nend\nclass Itemq\n  extend Tagq\n  include Tagq\n  def own_q\n    2\n  end\nend\nclass Itemr\n  include Tagq\n  extend Tagq\n  def own_r\n    3\n  end\nend\nclass Itemk < Itemq\nend\n"
+	mk(mixDefs+"uq = Itemq.new\n", "uq", union(map[string]bool{"label": true, "own_q": true}, objKernel), union(map[string]bool{"label": true, "own_q": true}, objKernel), map[string]bool{"own_r": true}, "user-instance:Itemq")
+	mk(mixDefs+"ur = Itemr.new\n", "ur", union(map[string]bool{"label": true, "own_r": true}, objKernel), union(map[string]bool{"label": true, "own_r": true}, objKernel), map[string]bool{"own_q": true}, "user-instance:Itemr")
+	mk(mixDefs+"ux = Itemk.new\n", "ux", union(map[string]bool{"label": true, "own_q": true}, objKernel), union(map[string]bool{"label": true, "own_q": true}, objKernel), map[string]bool{"own_r": true}, "user-instance:Itemk")
+	mk(mixDefs, "Itemq", map[string]bool{"label": true, "new": true}, union(map[string]bool{"label": true, "new": true}, objKernel), map[string]bool{"own_q": true, "own_r": true}, "user-class:Itemq")
 	cases := make([]*engine.Case, len(progs))
 	for i, p := range progs {
 		cases[i] = &engine.Case{Cfg: "core", Files: map[string]string{"t.rb": p.src}, Argv: []string{"t.rb", "--suggest", fmt.Sprintf("--row=%d", p.row)}}
